@@ -202,6 +202,8 @@ class World:
         self.fault_w: list[tuple[int, str]] = []  # (wseq, kind) delete/unavail events
         self.cur_loop = None
         self.pending: Violation | None = None
+        self.tdecisions: dict[str, list] = {}
+        self.tdecisions_in: dict | None = None
         self.trace: list = []
 
     def count(self, k: str, n: int = 1) -> None:
@@ -825,10 +827,13 @@ def do_par(w: World, op: dict):
                 results[i] = ("ok", h.result())
 
     fw0 = len(w.fault_w)
-    out = run_async(w, batch(), op)
-    w.store.set_unavailable(False)
-    if out[0] != "ok":
-        raise Violation("batch_failed", outcome=out)
+    if op.get("threads"):
+        _thread_batch(w, op, tasks, results)
+    else:
+        out = run_async(w, batch(), op)
+        w.store.set_unavailable(False)
+        if out[0] != "ok":
+            raise Violation("batch_failed", outcome=out)
     lookups = w.take()
     w.trace.append(sorted(results.items()))
     faults = w.fault_w[fw0:]
@@ -987,6 +992,74 @@ def do_par(w: World, op: dict):
     do_flush(w)
 
 
+def _thread_batch(w: World, op: dict, tasks: list, results: dict) -> None:
+    """The batch run by caller THREADS (sync API; sim/threads.py decides every switch)."""
+    import os
+
+    from sim import threads as simthreads
+
+    def mk_lr(i, tk):
+        def fn():
+            kw = _kw(w, tk)
+            e = tk.get("e", 0) if len(w.envs) > 1 else 0
+            t = w.envs[e].get_template(tk["name"], globals=tk.get("g"), **kw)
+            return common.norm(t.render(**w.data_for(tk["data"], f"T{i}")))
+        return fn
+
+    def mk_w(i, tk):
+        def fn():
+            apply_mutation(w, tk["w"])
+        return fn
+
+    fns, names, idx = [], [], []
+    for i, tk in enumerate(tasks):
+        if tk["t"] == "lr":
+            fns.append(mk_lr(i, tk)); names.append(f"T{i}"); idx.append(i)
+        elif tk["t"] == "w":
+            fns.append(mk_w(i, tk)); names.append(f"W{i}"); idx.append(i)
+
+    def on_switch():
+        try:
+            w.check_capacity()
+        except Violation as v:
+            if w.pending is None:
+                w.pending = v
+
+    prefix = os.path.join(common.repo_root(), "liquid2") + os.sep
+    sim = simthreads.ThreadSim(random.Random(f"{w.segs.seed}:tpar:{op['id']}"), (prefix,),
+                               decisions=(w.tdecisions_in or {}).get(str(op["id"])), on_switch=on_switch,
+                               atomic=lambda: w.store.rlog.observer > 0,   # the oracle's own reads are atomic
+                               hot=("lru_cache.py", "mixins.py"))
+
+    class _Dec:
+        @property
+        def decision_no(self):
+            return sim.switches
+
+    w.cur_loop = _Dec()
+    try:
+        res = sim.run(fns, names)
+    finally:
+        w.cur_loop = None
+    w.tdecisions[str(op["id"])] = sim.decisions
+    w.count("thread_batches")
+    w.count("thread_preemptions", sim.preemptions)
+    w.count("thread_lock_yields", sim.lock_yields)
+    if sim.preemptions:
+        w.count("thread_batches_interleaved")
+    for k, i in enumerate(idx):
+        if tasks[i]["t"] != "lr":
+            continue
+        r = res[k]
+        if r[0] == "ok":
+            results[i] = ("ok", r[1])
+        else:
+            exc = r[1]
+            if isinstance(exc, (Inconclusive, Violation)):
+                raise exc
+            results[i] = canon_exc(exc)
+
+
 def do_flush(w: World) -> None:
     """Re-synchronise the model: ``capacity`` loads of fresh names fill the cache."""
     items = []
@@ -1066,7 +1139,10 @@ def execute(plan: dict) -> dict:
     common.setup_child()
     cfg = plan["cfg"]
     segs = common.Segments(plan["seed"], cfg["policy"], plan.get("decisions"))
+    from sim import threads as simthreads
+    simthreads.install_lock()
     w = World(cfg, segs)
+    w.tdecisions_in = plan.get("tdecisions")
     status = "ok"
     violation = None
     step = -1
@@ -1158,11 +1234,12 @@ def execute(plan: dict) -> dict:
         "trace": digest(w.trace),
         "counters": c,
         "sim_seconds": w.clock.advanced,
-        "digest": digest([plan["cfg"], plan["init"], plan["ops"], segs.decisions]),
+        "digest": digest([plan["cfg"], plan["init"], plan["ops"], segs.decisions, w.tdecisions]),
         "nontrivial": bool(nontrivial),
         "states": sorted(f"{cfg['capacity']}|{s}" for s in w.states)[:200],
         "transitions": sorted(f"{cfg['capacity']}|{s}" for s in w.transitions)[:400],
         "decisions": segs.decisions,
+        "tdecisions": w.tdecisions,
     }
     if violation is not None:
         res["violation"] = violation
@@ -1384,6 +1461,20 @@ def gen_plan(seed: int, tier: str) -> dict:
             at = rng2.randrange(len(ops) + 1)
             f = lr_fields()
             ops[at:at] = [{"op": "chdir"}, {"op": "lr", "id": nid(), **f}]
+    if is_ns and cfg["thread_safe"]:
+        # caller threads on a cache built thread-safe (the mixin's thread_safe=True)
+        for op in ops:
+            if op["op"] == "par" and rng2.random() < 0.6:
+                op["threads"] = True
+                op["tasks"] = [t for t in op["tasks"] if t["t"] in ("lr", "w")]
+        if not any(op.get("threads") for op in ops):
+            tasks = []
+            for _ in range(rng2.randint(3, 5)):
+                f = lr_fields()
+                f.pop("mode")
+                f.pop("direct", None)
+                tasks.append({"t": "lr", **f})
+            ops.insert(rng2.randrange(len(ops) + 1), {"op": "par", "id": nid(), "tasks": tasks, "threads": True})
     # application code passing its own render context to get_template() / load()
     for op in ops:
         if op["op"] in ("lr", "load") and rng2.random() < 0.08:
@@ -1411,9 +1502,11 @@ class Engine:
         res = execute(plan)
         if res["status"] == "violation":
             plan["decisions"] = res.pop("decisions")
+            plan["tdecisions"] = res.pop("tdecisions", {})
             res["plan"] = plan
         else:
             res.pop("decisions", None)
+            res.pop("tdecisions", None)
         if job.get("want_sample"):
             res["sample"] = {"seed": job["seed"], "cfg": plan["cfg"],
                              "init": plan["init"][:4], "ops": plan["ops"][:12]}
